@@ -9,7 +9,9 @@ Programs:
   G-*      templates of the grammar G (operators opened and closed within one replication scope, as the
            property requires), all replication counts incl. zero as structure choices (thorough: 0..3), field
            values with the deviation bound, uncompressed and compressed;
-  bitmap   the C07 structures: every bit pattern, direct / delayed / reused / recalled bitmaps, markers;
+  bitmap   the C07 structures: every bit pattern, direct / delayed / reused / recalled bitmaps, markers; the same
+           structures inside a fixed / delayed replication that runs 2-3 times within a subset (with and without
+           235000 closing each repetition) and with 201/202/207/208 in force at the markers;
   tableD   every sequence of every bundled Table D of versions >= 19 (de-duplicated by expansion + the element
            definitions reached), delayed factors as deviation choices (default 1);
   corpus   the real bytes of every sample message, decode and re-encode.
@@ -400,6 +402,13 @@ def main(tier, seed):
                                ('bitmap-chain1-c2', list(BM.chain1(L)), dict(nsub=2, compressed=True, vmap=[0, 0])),
                                ('bitmap-chain1-u2-diff', list(BM.chain1(L, 2)), dict(nsub=2, compressed=False, vmap=[0, 1])),
                                ('bitmap-chain2-u1', list(BM.chain2(L)), dict(nsub=1, compressed=False, vmap=[0])),
+                               ('bitmap-in-replication-u1',
+                                list(BM.wrapped(BM.chain1(L), 2, True)) + list(BM.wrapped(BM.chain1(L), 2, False)) +
+                                list(BM.wrapped(BM.chain1(0), 3, True, delayed=True)) + list(BM.wrapped(BM.chain1(0), 2, False, delayed=True)),
+                                dict(nsub=1, compressed=False, vmap=[0])),
+                               ('bitmap-in-replication-c2',
+                                list(BM.wrapped(BM.chain1(0), 2, True)) + list(BM.wrapped(BM.chain1(0), 2, False, delayed=True)),
+                                dict(nsub=2, compressed=True, vmap=[0, 0])),
                                ('bitmap-under-operator-u1', under_operator_structs(2), dict(nsub=1, compressed=False, vmap=[0])),
                                ('bitmap-under-operator-c2', under_operator_structs(2), dict(nsub=2, compressed=True, vmap=[0, 0]))):
         p = merge_all(run_shards(run_structs, [(s, env) for s in split(structs, 64)]))
